@@ -24,7 +24,7 @@ EXPLANATION = (
     "where it stopped (chunks compose, whether the register inversion lives in the core or in the entry "
     "points), and an empty chunk changes nothing; (5) the page-header parser sets has_crc to a constant "
     "true in the arm that reads field 4, whatever the stored value. A page whose load failed is retried at the same position, not stepped over (carquet_read_next_page "
-    "executed abstractly over page states x a failing load; rule shared with C02.2). The writer side is decided on the finaliser's abstract execution (48 configurations): a CRC value is an opaque term naming the byte ranges folded into it, in order, by carquet_crc32 or chained carquet_crc32_update calls, and PageHeader.crc must cover exactly the stored payload in stored order. (9) damaged compressed bodies with verification off: the built-in block decompressors on the invalid forms of the C10 format grid - refused, and no byte outside the stream or the destination touched. (10) the only store to the verify_checksums member in the library is the default written by the options initialiser into the object it was handed; no function switches a reader's live option (off around a skip, say), which would leave the pages loaded in between unverified. Decides these clauses, not equality "
+    "executed abstractly over page states x a failing load; rule shared with C02.2). The writer side is decided on the finaliser's abstract execution (48 configurations): a CRC value is an opaque term naming the byte ranges folded into it, in order, by carquet_crc32 or chained carquet_crc32_update calls, and PageHeader.crc must cover exactly the stored payload in stored order. (9) damaged compressed bodies with verification off: the built-in block decompressors on the invalid forms of the C10 format grid - refused, and no byte outside the stream or the destination touched. (10) the only store to the verify_checksums member in the library is the default written by the options initialiser into the object it was handed; no function switches a reader's live option (off around a skip, say), which would leave the pages loaded in between unverified. (11) carquet_column_read_batch executed with the page loader reporting CRC_MISMATCH - on a peek, on a fresh read, and after a first page of the same call delivered 4 values: the call returns what was delivered and the undelivered count is reduced by exactly that, so the damaged page is met again - and reported - by the next call instead of the column ending silently. Decides these clauses, not equality "
     "with zlib for all inputs nor the CRC's error-detection algebra.")
 
 PR = "src/reader/page_reader.c"
@@ -51,6 +51,9 @@ def run(ctx):
     from ..rules import blockfmt
     nbf = blockfmt.check(ctx)
     ctx.floor("C14 format-built streams through the block decompressors", nbf, 80)
+    ctx.clause("C14.11 a page that fails its checksum inside a read that already delivered values from earlier pages is still reported: the reader does not mark the column exhausted (the failing page stays to be reported by the next call)")
+    from . import C19
+    ctx.floor("C14 checksum-failure call forms", C19._failed_load_keeps_rows(ctx, fail_name="CARQUET_ERROR_CRC_MISMATCH", rule="R6.crc-gate", key_prefix="crc-failure"), 3)
     ctx.clause("C14.10 the caller's verify_checksums choice is never overridden: the member is stored only by the options initialiser")
     ctx.floor("C14 stores to verify_checksums", _option_writers(ctx), 1)
     ctx.clause("C14.8 with verification off a damaged level-length prefix is still handled inside the page (rule shared with C04.12)")
